@@ -40,6 +40,21 @@ VERSIONS = ["1.0", "1.1", "2.0", "2.1", "3.0", "two", "", "<absent>", "2", "2.00
             "2.0 ", "2,0", "２.０", "0x2", "2_0", "2.0.0"]
 
 
+ENTRIES = ["authn_request_response", "authn_query_response", "attribute_query_response"]     # (authz_decision_query / assertion_id responses cannot be delivered over SOAP at all: UnravelError / TypeError before anything is looked at)
+
+
+def _deliver_via(sp, entry, doc):
+    """the response as it reaches the other entry points: in a SOAP envelope"""
+    from saml2_tophat import BINDING_SOAP
+    body = doc[doc.index("?>") + 2:] if doc.startswith("<?xml") else doc
+    wire = '<ns0:Envelope xmlns:ns0="http://schemas.xmlsoap.org/soap/envelope/"><ns0:Body>%s</ns0:Body></ns0:Envelope>' % body
+    fn = getattr(sp, "parse_" + entry)
+    try:
+        return fn(wire, BINDING_SOAP), None
+    except Exception as exc:
+        return None, exc
+
+
 def gen_cases(tier, seed):
     cases = []
     for top in TOP:
@@ -51,6 +66,16 @@ def gen_cases(tier, seed):
                     cid = "status-%s-%s-m%d-%s" % (top.split(":")[-1], second.split(":")[-1] or "empty", msg, assertion)
                     cases.append({"id": cid, "sig": ["status", top, second, msg, assertion], "kind": "status", "top": top, "second": second,
                                   "msg": msg, "assertion": assertion})
+    # the other response entry points of the client (responses to queries arrive over SOAP): the same rule, the same classes
+    for entry in ENTRIES[1:]:
+        for top in TOP:
+            for second in sorted(SECOND) + SECOND_EXTRA[:3]:
+                for assertion in ("none", "signed"):
+                    if tier == "quick" and top not in (TOP[0], TOP[1], TOP[-1]) and second not in ("AuthnFailed", "<absent>", "NoAuthnContext"):
+                        continue
+                    cid = "status-%s-%s-m0-%s-via-%s" % (top.split(":")[-1], second.split(":")[-1] or "empty", assertion, entry)
+                    cases.append({"id": cid, "sig": ["status", top, second, 0, assertion, entry], "kind": "status", "top": top, "second": second,
+                                  "msg": 0, "assertion": assertion, "entry": entry})
     # no statement of success at all: the Status element, or its StatusCode, is missing
     for top in ("<no Status element>", "<Status without StatusCode>", "<StatusCode without Value>"):
         for assertion in ("none", "signed"):
@@ -107,9 +132,13 @@ def run_case(case, ctx):
         if case["assertion"] == "none":
             d = d.remove(d.find(xk.SAML, "Assertion")[0])
         doc = d.text()
-        resp, exc = fed.deliver(sp, doc, {"id-req-1": "/"})
+        entry = case.get("entry", ENTRIES[0])
+        if entry == ENTRIES[0]:
+            resp, exc = fed.deliver(sp, doc, {"id-req-1": "/"})
+        else:
+            resp, exc = _deliver_via(sp, entry, doc)
         outcome = "accept" if resp is not None else "reject:" + (type(exc).__name__ if exc is not None else "None")
-        desc = "top=%s second=%s message=%s assertion=%s: %s" % (case["top"], case["second"], bool(case["msg"]), case["assertion"], outcome)
+        desc = "entry=parse_%s top=%s second=%s message=%s assertion=%s: %s" % (entry, case["top"], case["second"], bool(case["msg"]), case["assertion"], outcome)
         success = case["top"] == "Success"
         if not success:
             if resp is not None:
@@ -124,6 +153,8 @@ def run_case(case, ctx):
                 got = type(exc).__name__ if exc is not None else "None"
                 if case["top"].startswith("<"):
                     pass      # no status to name a class for: any refusal will do
+                elif entry != ENTRIES[0] and not isinstance(exc, R.StatusError):
+                    pass      # refused by a check that comes before the status (transport, addressing) - the class is promised only after those
                 elif exc is None:
                     viol.append({"key": "C06/non-success-response-returns-none-instead-of-error", "what": desc})
                 elif got != want:
@@ -132,10 +163,12 @@ def run_case(case, ctx):
                         key = "C06/unknown-second-level-code-not-a-status-error"
                     viol.append({"key": key, "what": desc + ", documented class %s" % want})
         else:
-            if case["assertion"] == "signed" and resp is None:
+            if case["assertion"] == "signed" and resp is None and entry == ENTRIES[0]:
                 viol.append({"key": "C06/successful-response-rejected", "what": desc + " %r" % (exc,)})
-        return {"outcome": outcome, "nontrivial": True, "violations": viol, "counters": {"status_cells": 1, "accepted": int(resp is not None)},
-                "obs": {"desc": desc}}
+        cnt = {"status_cells": 1, "accepted": int(resp is not None)}
+        if entry != ENTRIES[0]:
+            cnt["via_%s:%s" % (entry, "accepted" if resp is not None else ("status-error" if isinstance(exc, R.StatusError) else "refused-earlier:" + type(exc).__name__))] = 1
+        return {"outcome": outcome, "nontrivial": True, "violations": viol, "counters": cnt, "obs": {"desc": desc}}
     # ------------------------------------------------------------------ versions
     v = case["version"]
     target = case["target"]
